@@ -160,19 +160,26 @@ def check(prop, spec, tier, seed, replay=None):
                 cases = json.load(fh)
             with open(f["trace"]) as fh:
                 events = json.load(fh)
-            seen_cases = set()
+            by_case = {}
             for rej in r["rejects"]:
-                if rej["cid"] in seen_cases:
+                by_case.setdefault(rej["cid"], []).append(rej)
+            for cid_, rejs in by_case.items():
+                case = cases[cid_]
+                cevents = [e for e in events if e["cid"] == cid_]
+                unknown = None
+                hits = []
+                for rej in rejs:
+                    ev = events[rej["l"] - 1]
+                    tag = classify(prop, f["drv"], case, dict(rej, event=ev), cevents)
+                    hit = next((k for k in known if k["property"] == prop and tag is not None and k["tag"] == tag), None)
+                    if hit:
+                        hits.append({"tag": tag, "what": hit["what"], "example": case})
+                    elif unknown is None:
+                        unknown = (rej, ev, tag)
+                if unknown is None:
+                    known_hits.extend(hits[:1])
                     continue
-                seen_cases.add(rej["cid"])
-                case = cases[rej["cid"]]
-                ev = events[rej["l"] - 1]
-                cevents = [e for e in events if e["cid"] == rej["cid"]]
-                tag = classify(prop, f["drv"], case, rej, cevents)
-                hit = next((k for k in known if k["property"] == prop and tag is not None and k["tag"] == tag), None)
-                if hit:
-                    known_hits.append({"tag": tag, "what": hit["what"], "example": case})
-                    continue
+                rej, ev, tag = unknown
                 rp = _write_replay(prop, {"kind": "trace", "property": prop, "driver": f["drv"], "case": case,
                                           "op": rej["op"], "clause": rej["clause"], "event": ev, "tag": tag})
                 violations.append({"what": "%s rejected: clause %s" % (rej["op"], rej["clause"]), "replay": rp,
